@@ -81,6 +81,25 @@ def benchmark_runs(ctx, quick=True):
     return runs
 
 
+def past_budget_runs(ctx, count):
+    """DoGlobalIteration ignores itersLimit: a run continued far past the budget the solver was built with (any structure sized by
+    the budget is then too small), and Solve called again afterwards"""
+    rng = ctx.rng
+    runs = []
+    for _ in range(count):
+        prob = random_problem(rng, rng.choice([1, 1, 2]))
+        n = prob.numberOfFloatVariables
+        r, eps, _, m = rand_params(rng, n)
+        limit = rng.choice([8, 20, 40])
+        run = SolverRun(prob, r=r, eps=1e-9, limit=limit, m=m, tag=prob.name + "/past-budget", full_snap=False, listener="none")
+        run.solve()
+        for k in compositions(rng, rng.choice([6, 10]) * limit):
+            run.dgi(max(k, rng.choice([1, 10, 25])))
+        run.solve()
+        runs.append(run)
+    return runs
+
+
 def long_runs(ctx, count=1, trials=5200):
     """a run far longer than any queue bound or cache size a refactoring might introduce (thousands of intervals)"""
     rng = ctx.rng
@@ -247,6 +266,35 @@ def equal_value_runs(ctx, count):
         r, eps, limit, m = rand_params(rng, n)
         run = SolverRun(prob, r=r, eps=eps, limit=limit, m=m, tag=kind)
         for k in compositions(rng, rng.randint(2, min(limit, 30))):
+            run.dgi(k)
+        run.solve()
+        runs.append(run)
+    return runs
+
+
+def tiny_improvement_runs(ctx, count):
+    """objective values with a large constant part, or minima approached to high accuracy: successive records differ by far less
+    than 1e-9 relative - any tolerance in the record comparison shows"""
+    rng = ctx.rng
+    runs = []
+    for i in range(count):
+        n = rng.choice([1, 1, 2])
+        lo, up = rand_box_solver(rng, n)
+        w = [b - a for a, b in zip(lo, up)]
+        c = [rng.uniform(a, b) for a, b in zip(lo, up)]
+        off = rng.choice([1e7, -2.5e6, 3e8, 1.0e5])
+        kind = rng.choice(["offset-wavy", "offset-bowl", "deep"])
+        if kind == "offset-wavy":
+            f = lambda y, off=off: off + sum(math.sin(7 * (t - ci) / wi) + ((t - ci) / wi) ** 2 for t, ci, wi in zip(y, c, w))        # noqa: E731
+            eps, limit = 0.002, 160
+        elif kind == "offset-bowl":
+            f = lambda y, off=off: off + sum(((t - ci) / wi) ** 2 for t, ci, wi in zip(y, c, w))                                    # noqa: E731
+            eps, limit = 0.002, 200
+        else:
+            f = lambda y: 2.0 + sum(((t - ci) / wi) ** 2 for t, ci, wi in zip(y, c, w))                                              # noqa: E731
+            eps, limit = (1e-6, 260) if n == 1 else (2e-3, 260)
+        run = SolverRun(FnProblem(n, lo, up, f, kind), r=rng.choice([2.0, 3.0]), eps=eps, limit=limit, m=10, tag=kind, full_snap=False)
+        for k in compositions(rng, rng.randint(2, 30)):
             run.dgi(k)
         run.solve()
         runs.append(run)
